@@ -46,7 +46,7 @@ class Queue:
                     raise _rqueue.Empty()
                 return self._q.pop(0)
         if not self._q and block:
-            ENV.run_hook("queue", self)
+            ENV.run_hook("queue", self, timeout)
         if not self._q:
             if block:
                 ENV.advance(timeout)
@@ -131,7 +131,7 @@ class Condition:
         if i is not None:
             return i.wait(timeout)
         before = self.notified
-        ENV.run_hook("condition", self)
+        ENV.run_hook("condition", self, timeout)
         if self.notified != before:
             return True
         ENV.advance(timeout)
